@@ -144,7 +144,60 @@ class Normalizer(ast.NodeTransformer):
                 if isinstance(st, ast.If) and not st.orelse and len(st.body) == 1 and bare(st.body[0]):
                     st.body = [ast.copy_location(ast.Break(), st.body[0])]
         self._inline_return_temps(node)
+        self._unzip_records(node)
         return node
+
+    def _unzip_records(self, fn):
+        """`W = list(zip(A, B, C))` ... `a, b, c = W[i]`  ->  `a = A[i]; b = B[i]; c = C[i]` when W is bound once and used for nothing else
+        (parallel sequences read as records: the same objects are selected)"""
+        def simple(e):
+            return isinstance(e, ast.Name) or (isinstance(e, ast.Attribute) and simple(e.value))
+        stores, parent = {}, {}
+        for n in ast.walk(fn):
+            for c in ast.iter_child_nodes(n):
+                parent[id(c)] = n
+            if isinstance(n, ast.Name) and isinstance(n.ctx, (ast.Store, ast.Del)):
+                stores[n.id] = stores.get(n.id, 0) + 1
+        cands = {}
+        for n in ast.walk(fn):
+            if isinstance(n, ast.Assign) and len(n.targets) == 1 and isinstance(n.targets[0], ast.Name) and stores.get(n.targets[0].id) == 1 \
+                    and isinstance(n.value, ast.Call) and isinstance(n.value.func, ast.Name) and n.value.func.id in ('list', 'tuple') and len(n.value.args) == 1 \
+                    and isinstance(n.value.args[0], ast.Call) and isinstance(n.value.args[0].func, ast.Name) and n.value.args[0].func.id == 'zip' \
+                    and not n.value.args[0].keywords and all(simple(a) for a in n.value.args[0].args) and len(n.value.args[0].args) >= 2:
+                cands[n.targets[0].id] = (n, n.value.args[0].args)
+        for w, (wst, seqs) in cands.items():
+            uses = [n for n in ast.walk(fn) if isinstance(n, ast.Name) and n.id == w and isinstance(n.ctx, ast.Load)]
+            sites = []
+            ok = bool(uses)
+            for u in uses:
+                sub = parent.get(id(u))
+                asg = parent.get(id(sub)) if isinstance(sub, ast.Subscript) and sub.value is u and not isinstance(sub.slice, ast.Slice) else None
+                if isinstance(asg, ast.Assign) and asg.value is sub and len(asg.targets) == 1 and isinstance(asg.targets[0], ast.Tuple) \
+                        and len(asg.targets[0].elts) == len(seqs) and all(isinstance(t, ast.Name) for t in asg.targets[0].elts):
+                    sites.append((asg, sub))
+                else:
+                    ok = False
+            if not ok:
+                continue
+            for (asg, sub) in sites:
+                new = []
+                for t, seq in zip(asg.targets[0].elts, seqs):
+                    import copy as _c
+                    val = ast.Subscript(value=_c.deepcopy(seq), slice=_c.deepcopy(sub.slice), ctx=ast.Load())
+                    new.append(ast.copy_location(ast.Assign(targets=[ast.Name(id=t.id, ctx=ast.Store())], value=ast.copy_location(val, sub)), asg))
+                holder = parent.get(id(asg))
+                for field in ('body', 'orelse', 'finalbody'):
+                    lst = getattr(holder, field, None)
+                    if isinstance(lst, list) and asg in lst:
+                        i = lst.index(asg)
+                        lst[i:i + 1] = new
+            holder = parent.get(id(wst))
+            for field in ('body', 'orelse', 'finalbody'):
+                lst = getattr(holder, field, None)
+                if isinstance(lst, list) and wst in lst:
+                    lst.remove(wst)
+                    if not lst:
+                        lst.append(ast.copy_location(ast.Pass(), wst))
 
     def _inline_return_temps(self, fn):
         """`t = <expr>; return t` -> `return <expr>` when t is bound once and read once in the function"""
